@@ -114,6 +114,131 @@ func (c vVecCfg) NewWith(train [][]float32) (VectorIndex, error) {
 	return idx, nil
 }
 
+// newUntrained constructs the index without training it.
+func (c vVecCfg) newUntrained() (VectorIndex, error) {
+	switch c.Kind {
+	case "ivf":
+		return NewIVFIndex(c.Dim, c.NList, c.Metric)
+	case "pq":
+		return NewPQIndex(c.Dim, c.Metric, c.M, c.NBits)
+	case "ivfpq":
+		return NewIVFPQIndex(c.Dim, c.Metric, c.NList, c.M, c.NBits)
+	}
+	return nil, fmt.Errorf("kind %q is not trainable", c.Kind)
+}
+
+// vProbeTrainSet: n training vectors far away from every data alphabet (offset 37), so
+// that a Train call that takes effect visibly moves centroids and codebooks. bad = index
+// of a vector of the wrong dimension (-1: none).
+func vProbeTrainSet(dim, n, bad int) []VectorNode {
+	out := make([]VectorNode, n)
+	for i := range out {
+		d := dim
+		if i == bad {
+			d = dim + 1
+		}
+		v := make([]float32, d)
+		for j := range v {
+			v[j] = 37 + float32((i*(j+2)+j)%9)
+		}
+		out[i] = *NewVectorNodeWithID(uint32(5000+i), v)
+	}
+	return out
+}
+
+// vTryTrain calls Train and reports a panic instead of propagating it (IVFIndex.Train does
+// not validate dimensions: a wrong-dimension training vector panics inside k-means, which
+// no listed property speaks about; such sets are simply not used as probes).
+func vTryTrain(idx VectorIndex, set []VectorNode) (err error, panicked bool) {
+	defer func() {
+		if r := recover(); r != nil {
+			panicked = true
+		}
+	}()
+	return idx.Train(set), false
+}
+
+var vRejectedTrainCache = map[string][][]VectorNode{}
+
+// rejectedTrainSets: training sets that a FRESH index of this configuration rejects
+// (too few vectors for either precondition, or one vector of the wrong dimension first /
+// last in an otherwise sufficient set); found empirically, cached per configuration.
+func (c vVecCfg) rejectedTrainSets() [][]VectorNode {
+	key := fmt.Sprintf("%s/%s/%d/%d/%d/%d", c.Kind, c.Metric, c.Dim, c.NList, c.M, c.NBits)
+	if sets, ok := vRejectedTrainCache[key]; ok {
+		return sets
+	}
+	ksub := 0
+	if c.NBits > 0 {
+		ksub = 1 << c.NBits
+	}
+	cand := []int{0, 1, 2, c.NList - 1, c.NList, 2 * c.NList, 10*c.NList - 1, 10 * c.NList, ksub - 1, ksub / 2, (10*c.NList + ksub) / 2}
+	sort.Ints(cand)
+	var sets [][]VectorNode
+	seen := map[int]bool{}
+	big := 10*c.NList + ksub + 2
+	for _, n := range cand {
+		if n < 0 || seen[n] || n > 1100 {
+			continue
+		}
+		seen[n] = true
+		idx, err := c.newUntrained()
+		if err != nil {
+			break
+		}
+		if err, p := vTryTrain(idx, vProbeTrainSet(c.Dim, n, -1)); err != nil && !p {
+			sets = append(sets, vProbeTrainSet(c.Dim, n, -1))
+		}
+	}
+	if big <= 1100 {
+		for _, bad := range []int{0, big - 1} {
+			if idx, err := c.newUntrained(); err == nil {
+				if err, p := vTryTrain(idx, vProbeTrainSet(c.Dim, big, bad)); err != nil && !p {
+					sets = append(sets, vProbeTrainSet(c.Dim, big, bad))
+				}
+			}
+		}
+	}
+	vRejectedTrainCache[key] = sets
+	return sets
+}
+
+// rejectedTrain: a Train call that is refused must leave a trained, populated index as it
+// was. The refused calls are made BEFORE the state is observed, so the whole oracle
+// (answers against the model, the kind's structural invariants in the hook) judges the
+// state they leave behind. Returns the history line to show, "" if nothing was probed.
+func (s *vKindSys) rejectedTrain(h []string) string {
+	if s.polluted || (s.cfg.Kind != "ivf" && s.cfg.Kind != "pq" && s.cfg.Kind != "ivfpq") {
+		return ""
+	}
+	sets := s.cfg.rejectedTrainSets()
+	if len(sets) == 0 {
+		return ""
+	}
+	sizes := []int{}
+	for _, set := range sets {
+		s.c.Evaluations++
+		err, p := vTryTrain(s.idx, set)
+		if p {
+			s.c.Violation("rejected-train-changed-index", "panic", s.cfgS, h, fmt.Sprintf("Train with %d vectors is refused with an error by a fresh index but panics on this one", len(set)))
+			s.polluted = true
+			return ""
+		}
+		if err == nil {
+			// accepted here although a fresh index refuses it: the index has been
+			// retrained, which is outside the judged histories
+			s.polluted = true
+			s.c.Extra["rejected_train_probe_accepted"]++
+			return ""
+		}
+		sizes = append(sizes, len(set))
+	}
+	if len(s.m.live) > 0 {
+		s.c.Nontrivial(s.cfgS + "|rejtrain|" + s.m.key())
+	}
+	return fmt.Sprintf("Train(refused: sets of sizes %v)", sizes)
+}
+
 // vTrainNoCopy: hand the training slices themselves to Train (aliasing mode: a caller
 // that trains on its data and then adds the very same slices).
 var vTrainNoCopy bool
@@ -229,6 +354,8 @@ type vKindSys struct {
 	train      [][]float32                   // explicit training set (nil = cfg.Train)
 	hook       func(s *vKindSys, h []string) // extra per-state checks (C13, C14)
 	noMulti    bool
+	noPrepared bool // lean mode (C13): no prepared-search reuse, no Remove-with-carried-vector variants (C02 has both)
+	polluted   bool // a probe retrained the index: nothing is judged on this instance any more
 	inRecheck  bool
 	aliasTrain bool        // Add operations add the training slices themselves
 	owned      [][]float32 // the caller-owned slices of the current instance
@@ -328,6 +455,7 @@ func (s *vKindSys) Reset() {
 		panic(fmt.Sprintf("%s: %v", s.cfgS, err))
 	}
 	s.idx = idx
+	s.polluted = false
 	s.m = newVecModel()
 	s.lvls = 0
 	documentFilterPool.Reset()
@@ -337,6 +465,12 @@ func (s *vKindSys) Reset() {
 
 func (s *vKindSys) Enabled() []vOp {
 	var ops []vOp
+	for _, id := range s.ids {
+		if _, live := s.m.live[id]; !live && s.m.ever[id] {
+			// update: a removed id is added again, with one (other) value
+			ops = append(ops, vOp{K: "Add", A: int(id), B: (int(id) + 1) % len(s.vals)})
+		}
+	}
 	for _, id := range s.ids {
 		if s.m.ever[id] {
 			continue
@@ -350,16 +484,41 @@ func (s *vKindSys) Enabled() []vOp {
 		break // ids are added in ascending order (the restrictions name fixed ids; C01 covers any order)
 	}
 	for _, id := range s.ids {
+		// B=1: the node handed to Remove carries some (other) vector; only its id counts
 		ops = append(ops, vOp{K: "Remove", A: int(id)})
+		if !s.noPrepared {
+			ops = append(ops, vOp{K: "Remove", A: int(id), B: 1})
+		}
 	}
 	ops = append(ops, vOp{K: "Flush"})
 	return ops
 }
 
 func (s *vKindSys) Apply(op vOp, hist []vOp, check bool) {
+	if s.polluted {
+		check = false
+	}
 	var before []string
 	if check && op.K == "Flush" && s.cfg.exhaustive() {
 		before = s.snapshot()
+	}
+	// prepared search objects: built and executed once BEFORE the operation, executed
+	// again after it; a search object is a description of a query, so re-executing it
+	// must answer from the index's current contents exactly as a freshly built one does
+	var prepQ []vVecQuery
+	var prep []VectorSearch
+	if check && !s.noPrepared {
+		for _, id := range s.ids {
+			prepQ = append(prepQ, vVecQuery{Node: id, K: -1})
+		}
+		if len(s.qa) > 1 {
+			prepQ = append(prepQ, vVecQuery{Q: s.qa[0], K: 2}, vVecQuery{Q: s.qa[1], K: -1, IDs: []uint32{1, 2}})
+		}
+		for _, q := range prepQ {
+			ps := vBuildVecSearch(s.idx, q)
+			ps.Execute()
+			prep = append(prep, ps)
+		}
 	}
 	switch op.K {
 	case "Add":
@@ -378,13 +537,18 @@ func (s *vKindSys) Apply(op vOp, hist []vOp, check bool) {
 		} else {
 			s.m.live[uint32(op.A)] = vCopyVec(raw)
 			s.m.ever[uint32(op.A)] = true
+			delete(s.m.removed, uint32(op.A))
 			if op.C > 0 {
 				s.lvls++
 			}
 		}
 	case "Remove":
 		id := uint32(op.A)
-		if err := s.idx.Remove(*NewVectorNodeWithID(id, nil)); err == nil {
+		var carried []float32
+		if op.B == 1 {
+			carried = vCopyVec(s.vals[(int(id)+1)%len(s.vals)])
+		}
+		if err := s.idx.Remove(*NewVectorNodeWithID(id, carried)); err == nil {
 			delete(s.m.live, id)
 			s.m.removed[id] = true
 		}
@@ -397,6 +561,18 @@ func (s *vKindSys) Apply(op vOp, hist []vOp, check bool) {
 		return
 	}
 	h := vHistStrings(append(hist, op))
+	for i, ps := range prep {
+		s.c.Evaluations++
+		r1, e1 := ps.Execute()
+		r2, e2 := vRunVecQuery(s.idx, prepQ[i])
+		if (e1 != nil) != (e2 != nil) {
+			s.c.Violation("prepared-search-stale", "error-differs", s.cfgS, h, fmt.Sprintf("%s: a search object built before the last operation returned err=%v, a fresh one err=%v", prepQ[i].String(), e1, e2))
+		} else if e1 == nil {
+			if msg := vSameResults(r1, r2); msg != "" {
+				s.c.Violation("prepared-search-stale", "result-differs", s.cfgS, h, fmt.Sprintf("%s: a search object built before the last operation returned [%s], a fresh one [%s]: %s", prepQ[i].String(), vResStr(r1), vResStr(r2), msg))
+			}
+		}
+	}
 	if before != nil {
 		after := s.snapshot()
 		for i := range before {
@@ -405,6 +581,12 @@ func (s *vKindSys) Apply(op vOp, hist []vOp, check bool) {
 				break
 			}
 		}
+	}
+	if line := s.rejectedTrain(h); line != "" {
+		h = append(h, line)
+	}
+	if s.polluted {
+		return
 	}
 	s.observe(h)
 }
@@ -726,10 +908,19 @@ func (s *vKindSys) Key() string {
 // 32, 64 ...) that the small-scope BFS cannot reach. Enumerated over n, not sampled.
 func vKindSweep(c *vCtx, cfg vVecCfg, maxN int, hook func(s *vKindSys, h []string)) {
 	for n := 1; n <= maxN; n++ {
-		for pattern := 0; pattern < 3; pattern++ {
-			// removal patterns: 0 = every third removed, 1 = all but every fifth removed
-			// (mass delete), 2 = all but the last one removed
-			if pattern > 0 && (n < 4 || n%3 != 1) {
+		for pattern := 0; pattern < 5; pattern++ {
+			// tails after the n adds:
+			//  0 = every third removed, flush, one more add
+			//  1 = all but every fifth removed (mass delete), flush, one more add
+			//  2 = all but the last one removed, flush, one more add
+			//  3 = ONE vector removed and re-added with new content (an update in a large,
+			//      almost tombstone-free index), then flush
+			//  4 = everything removed, one new vector added (no flush in between), then
+			//      flush, then the first id re-added
+			if (pattern == 1 || pattern == 2) && (n < 4 || n%3 != 1) {
+				continue
+			}
+			if pattern >= 3 && n > 24 && n%3 != 1 {
 				continue
 			}
 			if c.Expired() {
@@ -741,7 +932,7 @@ func vKindSweep(c *vCtx, cfg vVecCfg, maxN int, hook func(s *vKindSys, h []strin
 			if pattern > 0 {
 				s.cfgS += fmt.Sprintf(" pattern=%d", pattern)
 			}
-			s.vals = vStructuredVecs(cfg.Dim, n)
+			s.vals = vStructuredVecs(cfg.Dim, n+2)
 			s.hook = hook
 			s.noMulti = n > 12
 			s.Reset()
@@ -761,31 +952,118 @@ func vKindSweep(c *vCtx, cfg vVecCfg, maxN int, hook func(s *vKindSys, h []strin
 			switch pattern {
 			case 0:
 				for i := 2; i < n; i += 3 {
-					ap(vOp{K: "Remove", A: i + 1}, i+3 >= n)
+					ap(vOp{K: "Remove", A: i + 1, B: (i / 3) % 2}, i+3 >= n)
 				}
 			case 1:
 				for i := 0; i < n; i++ {
 					if i%5 != 0 {
-						ap(vOp{K: "Remove", A: i + 1}, i == n-1)
+						ap(vOp{K: "Remove", A: i + 1, B: i % 2}, i == n-1)
 					}
 				}
 			case 2:
 				for i := 0; i < n-1; i++ {
 					ap(vOp{K: "Remove", A: i + 1}, i == n-2)
 				}
+			case 3:
+				mid := n/2 + 1
+				ap(vOp{K: "Remove", A: mid}, false)
+				ap(vOp{K: "Add", A: mid, B: n + 1}, true)
+			case 4:
+				for i := 0; i < n; i++ {
+					ap(vOp{K: "Remove", A: i + 1}, false)
+				}
+				ap(vOp{K: "Add", A: n + 1, B: n}, true)
 			}
 			ap(vOp{K: "Flush"}, true)
-			if n < maxN {
+			switch {
+			case pattern == 4:
+				ap(vOp{K: "Add", A: 1, B: n + 1}, true)
+			case pattern == 3:
+			case n < maxN:
 				// continue after the flush: one more add
-				s.vals = append(s.vals, []float32(vStructuredVecs(cfg.Dim, n+1)[n]))
 				ap(vOp{K: "Add", A: n + 1, B: n}, true)
 			}
 			c.Traces++
 			c.NewState(s.cfgS)
 		}
 	}
-	c.Sample(fmt.Sprintf("%s: n structured vectors, every third / all but every fifth / all but one removed, flush, one more add; for every n in 1..%d", cfg.String(), maxN))
+	c.Sample(fmt.Sprintf("%s: n structured vectors, then one of five tails (every third / all but every fifth / all but one removed, flush, one more add; one vector updated, flush; all removed, one added, flush, first id re-added); for every n in 1..%d", cfg.String(), maxN))
 	c.Bound = fmt.Sprintf("sweep sizes 1..%d", maxN)
+}
+
+// vKindLarge: a few LARGE instances (hundreds to thousands of vectors) judged with a k
+// alphabet that scales with n (1, 2, 3, 5, 10, 25, n/8, n/4, n/3, n/2, n-1, n, all):
+// selection strategies that switch on candidate count or on k relative to it (bounded
+// heaps, partial sorts, parallel splits) are only exercised here. n structured vectors,
+// every 7th removed, flush; judged after each phase.
+func vKindLarge(c *vCtx, cfg vVecCfg, sizes []int, hook func(s *vKindSys, h []string)) {
+	for _, n := range sizes {
+		if c.Expired() {
+			c.Bound += fmt.Sprintf(" (deadline before large n=%d)", n)
+			return
+		}
+		s := newKindSys(c, cfg, 3)
+		s.cfgS = cfg.String() + fmt.Sprintf(" large n=%d", n)
+		s.vals = vStructuredVecs(cfg.Dim, n+1)
+		s.hook = hook
+		s.noMulti = true
+		s.noPrepared = true
+		thr := float32(0)
+		switch cfg.Metric {
+		case Euclidean:
+			thr = 12.5
+		case L2Squared:
+			thr = 150.5
+		case Cosine:
+			thr = 0.35
+		}
+		probes := []int{0}
+		if cfg.Kind == "ivf" || cfg.Kind == "ivfpq" {
+			probes = []int{0, -1, 1, 2}
+		}
+		s.qs = nil
+		qv := [][]float32{s.qa[0], s.qa[len(s.qa)/2], s.vals[n/3]}
+		for _, q := range qv {
+			for _, k := range []int{1, 2, 3, 5, 10, 25, n / 8, n / 4, n / 3, n / 2, n - 1, n, -1} {
+				if k == 0 {
+					continue
+				}
+				for _, t := range []float32{0, thr} {
+					for _, p := range probes {
+						s.qs = append(s.qs, vVecQuery{Q: q, K: k, Thr: t, NProb: p})
+					}
+				}
+			}
+		}
+		s.Reset()
+		var hist []vOp
+		ap := func(op vOp, check bool) {
+			s.Apply(op, hist, check)
+			hist = append(hist, op)
+			c.Transitions++
+		}
+		for i := 0; i < n; i++ {
+			lvl := 0
+			if cfg.Kind == "hnsw" && i%5 == 4 {
+				lvl = 1
+			}
+			ap(vOp{K: "Add", A: i + 1, B: i, C: lvl}, i == n-1)
+		}
+		for i := 3; i < n; i += 7 {
+			ap(vOp{K: "Remove", A: i + 1}, i+7 >= n)
+		}
+		ap(vOp{K: "Flush"}, true)
+		c.Traces++
+		c.NewState(s.cfgS)
+	}
+	c.Sample(fmt.Sprintf("%s: large instances n in %v, k up to n, every 7th removed, flush", cfg.String(), sizes))
+}
+
+func vLargeSizes(tier string) []int {
+	if tier == "thorough" {
+		return []int{260, 300, 520, 700, 1030, 2050, 4100}
+	}
+	return []int{260, 300, 700, 1030}
 }
 
 func vSweepCfgs() []vVecCfg {
@@ -870,10 +1148,18 @@ func init() {
 			for _, cfg := range vSweepCfgs() {
 				cfg := cfg
 				sh = append(sh, vShard{Name: "sweep/" + strings.ReplaceAll(cfg.String(), " ", ","), Run: func(c *vCtx) { vKindSweep(c, cfg, maxN, nil) }})
+				sh = append(sh, vShard{Name: "large/" + strings.ReplaceAll(cfg.String(), " ", ","), Run: func(c *vCtx) { vKindLarge(c, cfg, vLargeSizes(tier), nil) }})
 			}
 			return sh
 		},
 		Replay: func(c *vCtx, v *vViolation) bool {
+			if i := strings.Index(v.Config, " large n="); i >= 0 {
+				var n int
+				fmt.Sscanf(v.Config[i:], " large n=%d", &n)
+				vKindLarge(c, vParseVecCfg(v.Config[:i]), []int{n}, nil)
+				_, ok := c.viol[v.Sig()]
+				return ok
+			}
 			if i := strings.Index(v.Config, " sweep n="); i >= 0 {
 				var n int
 				fmt.Sscanf(v.Config[i:], " sweep n=%d", &n)
